@@ -108,6 +108,34 @@ theorem handles_follow_rename {s : State} (hI : Inv s) (g : Nat) (dict : List (N
 
 example : ((0, "a"), 0) ∈ exState.cols ∧ viewHandle (renamedState exState 0 exDict) 0 = .named "b" := by decide
 
+/-! ### untouched fields keep their data -/
+
+/-- Creating a column (create_*, and the copy made by `df[n] = f`, `add`, `dataframe.copy`, the first half of a move)
+    puts exactly the given type+data under the new name and leaves every other column of every frame as it was. -/
+theorem untouched_fields_unchanged_add {v : Variant} {s s' : State} (hI : Inv s) {g : Nat} {n : Name} {c : Content} {a : Nat}
+    (h : addField v s g n c = .ok a s') :
+    ∀ g' n', frameH5 s' g' n' = if (g', n') = (g, n) then some c else frameH5 s g' n' :=
+  addField_refines hI.toInvCore h
+
+/-- A copy stores the type and data of the source field object. -/
+theorem copy_preserves_content {v : Variant} {s s' : State} (hI : Inv s) {h g : Nat} {n : Name} {a : Nat}
+    (hc : copyField v s h g n = .ok a s') :
+    ∃ c, fieldContent s h = .ok c ∧ ∀ g' n', frameH5 s' g' n' = if (g', n') = (g, n) then some c else frameH5 s g' n' :=
+  copyField_refines hI.toInvCore hc
+
+/-- Deleting a column (`del df[n]`, `delete_field`, `drop`, the second half of a move) removes that name only. -/
+theorem untouched_fields_unchanged_del {s s' : State} {g : Nat} {n : Name}
+    (h : delItem s g n = .ok () s' ∨ dropField s g n = .ok () s') :
+    ∀ g' n', frameH5 s' g' n' = if (g', n') = (g, n) then none else frameH5 s g' n' := by
+  rcases h with h | h
+  · exact delItem_refines h
+  · exact dropField_refines h
+
+example : (copyField .repaired exState 1 1 "b").isOk = true ∧
+    frameH5 (copyField .repaired exState 1 1 "b").state 1 "b" = some ⟨.indexed, 2⟩ ∧
+    frameH5 (copyField .repaired exState 1 1 "b").state 0 "b" = some ⟨.indexed, 2⟩ := by decide
+example : (delItem exState 0 "a").isOk = true ∧ frameH5 (delItem exState 0 "a").state 0 "b" = some ⟨.indexed, 2⟩ := by decide
+
 /-! ### move -/
 
 /-- A field object that `dataframe.move` moved to another frame reports itself invalid. -/
